@@ -105,7 +105,7 @@ class VDT(dt.datetime):
 
 
 def setup(opts):
-    run.datetime = VDT
+    # (not `run.datetime = VDT`: the name may be bound to the datetime MODULE in another spelling of the imports)
     patchall.patch_attr(dt, "datetime", VDT)   # wherever else the package reads the clock: the class under any name,
     #                                        or the datetime module itself under any name (import datetime as dt)
 
